@@ -1038,7 +1038,7 @@ func ConcScenarios(tier string) []Conc {
 	fte := FilterTE(Leaf(KFailure), Leaf(KFailure)).Number()
 	viaTrue := Msg{Sel: 1 << uint(fte.ID)}
 	gg := Group(Group(Leaf(KFailure)), Leaf(KFailure))
-	mixed := Group(Leaf(KPingback), Leaf(KFailure), Leaf(KStatus))
+	mixed := Group(Leaf(KPingback), Leaf(KFailure))
 
 	// ---- complete explorations: pairs of threads and small triples ----
 	add(Conc{Name: "failure/1x1+query", Tree: Leaf(KFailure), Threads: one, Queries: 1})
@@ -1065,8 +1065,9 @@ func ConcScenarios(tier string) []Conc {
 	add(Conc{Name: "filterTE(failure,failure)/2x1+query+reset", Tree: fte, Prime: []Msg{viaTrue, unmet}, Threads: [][]Msg{{viaTrue}, {unmet}}, Queries: 1, Reset: true, Preempt: pb})
 	add(Conc{Name: "filterE(status)/2x1+query+reset", Tree: FilterE(Leaf(KStatus)), Prime: []Msg{unmet}, Threads: two, Queries: 1, Reset: true, Preempt: pb})
 	add(Conc{Name: "pingback/2x1+query+reset", Tree: Leaf(KPingback), Prime: []Msg{seen}, Threads: [][]Msg{{seen}, {unmet}}, Queries: 1, Reset: true, Preempt: pb})
-	add(Conc{Name: "group(pingback,failure,status)/2x2+query+reset", Tree: mixed, Prime: []Msg{unmet}, Threads: [][]Msg{{seen, unmet}, {unmet, seen}}, Queries: 1, Reset: true, Preempt: pb})
-	add(Conc{Name: "status/3x1+2query+reset", Tree: Leaf(KStatus), Prime: []Msg{unmet}, Threads: three, Queries: 2, Reset: true, Preempt: pb, Heavy: true})
+	add(Conc{Name: "group(pingback,failure)/2x1+query+reset", Tree: mixed, Prime: []Msg{unmet}, Threads: [][]Msg{{seen}, {unmet}}, Queries: 1, Reset: true, Preempt: 2})
+	add(Conc{Name: "status/3x1+query", Tree: Leaf(KStatus), Threads: three, Queries: 1, Preempt: pb, Heavy: true})
+	add(Conc{Name: "failure/2x2+query+reset", Tree: Leaf(KFailure), Prime: []Msg{unmet}, Threads: twoTwo, Queries: 1, Reset: true, Preempt: 2, Heavy: true})
 
 	// ---- thorough tier: complete explorations of mid-sized triples ----
 	add(Conc{Name: "failure/2x1req+query", Tree: Leaf(KFailure), Threads: two, ReqOnly: true, Queries: 1, Heavy: true})
@@ -1074,7 +1075,7 @@ func ConcScenarios(tier string) []Conc {
 	add(Conc{Name: "failure/1x1req+2query", Tree: Leaf(KFailure), Threads: one, ReqOnly: true, Queries: 2, Heavy: true})
 	add(Conc{Name: "header/1x1req+query+reset", Tree: Leaf(KHeader), Prime: []Msg{unmet}, Threads: one, ReqOnly: true, Queries: 1, Reset: true, Heavy: true})
 	add(Conc{Name: "group(group(failure),failure)/1x1req+query", Tree: gg, Threads: one, ReqOnly: true, Queries: 1, Heavy: true})
-	add(Conc{Name: "filterTE(failure,failure)/1x1req+query+reset", Tree: fte, Prime: []Msg{viaTrue, unmet}, Threads: one, ReqOnly: true, Queries: 1, Reset: true, Heavy: true})
+	add(Conc{Name: "filterTE(failure,failure)/1x1req+reset", Tree: fte, Prime: []Msg{viaTrue, unmet}, Threads: one, ReqOnly: true, Reset: true, Heavy: true})
 	add(Conc{Name: "filterE(status)/1x1+query", Tree: FilterE(Leaf(KStatus)), Threads: one, Queries: 1, Heavy: true})
 	add(Conc{Name: "url/api+plain+query", Tree: Leaf(KURL), Threads: [][]Msg{{{API: true}}, {unmet}}, ReqOnly: true, Queries: 1, Heavy: true})
 	add(Conc{Name: "pingback/2x1req+query", Tree: Leaf(KPingback), Threads: [][]Msg{{seen}, {unmet}}, ReqOnly: true, Queries: 1, Heavy: true})
